@@ -73,8 +73,8 @@ func init() {
 		n := c.Budget(1500, 40000)
 		seedsClean := []string{"", "\x00", "\x00\x00", " \x00 ", "FF", " FQ ", "\x00FC EM ABC 1 2 0\x00", " x ", "\x85line\x85", "*** error", "\t[WL2K-5.0-B2FWIHJM$]\r"}
 		seedsErr := []string{"", "*", "**", "*** Protocol error", "***", "* a * b", "***  spaced  ", "x*y", "*x", "*** trailing *"}
-		seedsAns := []string{"FS +", "FS +-=", "FS YNL", "FS ynlr", "FS !100", "FS A5+", "FS +!", "FS ", "FS", "fs +", "FS +++++", "FS H", "FS !99999999999999999999", "FS A-5", "FS !0x10", "FS + -", "FS !12!34", "FS R", "FS E", "FS =A1"}
-		seedsProp := []string{"FC EM ABCDEFGHIJKL 100 50 0", "FA P LA1B LA5NTA NOCALL MID123 100", "FB P X Y Z M 1", "FC EM M 1 2", "FC EM M x 2 0", "FC EM M 1 y 0", "FC", "F", "FD EM M 1 2 0", "FC EM M -1 -2 0", "FC EM M 99999999999999999999 1 0", "FC  EM M 1 2 0", "FC EM M 1 2 0 extra", "FC CM M 1 2 0", "F> 2A", "FF", "FQ", "FC EM M +1 2 0", "FC EM M 0x1 2 0"}
+		seedsAns := []string{"FS +", "FS +-=", "FS YNL", "FS ynlr", "FS !100", "FS A5+", "FS +!", "FS ", "FS", "fs +", "FS +++++", "FS H", "FS !99999999999999999999", "FS A-5", "FS !0x10", "FS + -", "FS !12!34", "FS R", "FS E", "FS =A1", "FS A99999999999999999999", "FS !18446744073709551616+"}
+		seedsProp := []string{"FC EM ABCDEFGHIJKL 100 50 0", "FA P LA1B LA5NTA NOCALL MID123 100", "FB P X Y Z M 1", "FC EM M 1 2", "FC EM M x 2 0", "FC EM M 1 y 0", "FC", "F", "FD EM M 1 2 0", "FC EM M -1 -2 0", "FC EM M 99999999999999999999 1 0", "FC  EM M 1 2 0", "FC EM M 1 2 0 extra", "FC CM M 1 2 0", "F> 2A", "FF", "FQ", "FC EM M +1 2 0", "FC EM M 0x1 2 0", "FC EM M 99999999999999999999E 1 0", "FC EM M 1 -18446744073709551616x 0", "FC EM M 18446744073709551615x 1 0"}
 		seedsSID := []string{"[WL2K-5.0-B2FWIHJM$]", "[RMS Express-1.5.40.0-B2FHM$]", "[a-b]", "[-]", "[]", "[x]", "[a-b-c-d$]", "x[a-b]y", "[a-b]\n[c-d]", "[a\n-b]", "[[a-b]]", "[a-b]]", "[a-]", "[-b]", "[wl2k-go-0.1-b2fhm$]", "]a-b[", "[a-b", "a-b]"}
 		seedsFW := []string{";FW: LA5NTA", ";FW: LA5NTA LE1OF|12345678", ";FW: ", ";FW:", ";FW: a b  c", ";FW: smtp:foo@bar.com nts:N0CALL", ";FW: la5nta|x|y", ";fw: LA5NTA", ";FW: |", ";FW: :", ";FW: winlink:la5nta-1", ";PQ: 1234", ";FW: A:B:C"}
 		pick := func(seeds []string) string {
